@@ -32,10 +32,12 @@ const (
 	aNoGroup
 	a400
 	a500
+	a503
+	a429Validate
 	nAns
 )
 
-var ansNames = []string{"ok", "ok-short-token", "validate-401", "refresh-401", "group-removed", "all-400", "all-500"}
+var ansNames = []string{"ok", "ok-short-token", "validate-401", "refresh-401", "group-removed", "all-400", "all-500", "all-503", "validate-429"}
 
 var gapGrid = []time.Duration{
 	0, time.Duration(0.4 * float64(V)), time.Duration(1.5 * float64(V)), time.Duration(0.6 * float64(R)),
@@ -110,7 +112,7 @@ func TestProp(t *testing.T) {
 	}
 	gen(nil)
 	nA := len(seqs) * len(gapPatterns)
-	nB := env.Pick(400, 8000)
+	nB := env.Pick(250, 8000)
 
 	if only, skip := env.Only("c04-exhaustive"); !skip {
 		vh.ForEach(nA, 0, only, func(i int) {
@@ -153,6 +155,7 @@ func TestProp(t *testing.T) {
 		rep.Floor("steps_refused_after_denial", 100)
 		rep.Floor("steps_refused_after_lifetime", 20)
 		rep.Floor("refresh_exchanges_observed", 50)
+		rep.Floor("steps_served_during_outage_after_consulting", 30)
 	}
 	rep.Count("handler_panics", ps.ErrLog.Panics())
 	if rep.Finish() == "violated" {
@@ -260,6 +263,10 @@ func runHistory(rep *vh.Report, ps *sut.ProxyStack, stream string, idx int, r *r
 			val, ref, profStatus = sut.Status(400), sut.Status(400), 400
 		case a500:
 			val, ref, profStatus = sut.Status(500), sut.Status(500), 500
+		case a503:
+			val, ref, profStatus = sut.Status(503), sut.Status(503), 503
+		case a429Validate:
+			val = sut.Status(429)
 		}
 		ps.Auth.Set("validate", token, val)
 		ps.Auth.Set("refresh", rtok, ref)
@@ -284,28 +291,39 @@ func runHistory(rep *vh.Report, ps *sut.ProxyStack, stream string, idx int, r *r
 		pCalls := append(ps.Auth.Calls("profile", token), ps.Auth.Calls("profile", newTok)...)
 		var callNames []string
 		negative := ""
+		unavailable := "" // an outage answer (429/503): neither a confirmation nor a denial; grace is C05's business
 		valOK, refOK, profOK := false, false, false
+		outage := func(st int) bool { return st == 429 || st == 503 }
 		for _, c := range vCalls {
 			callNames = append(callNames, fmt.Sprintf("validate:%d", c.Status))
-			if c.Status == 200 {
+			switch {
+			case c.Status == 200:
 				valOK = true
-			} else {
+			case outage(c.Status):
+				unavailable = "validate"
+			default:
 				negative = "validate"
 			}
 		}
 		for _, c := range rCalls {
 			callNames = append(callNames, fmt.Sprintf("refresh:%d", c.Status))
-			if c.Status == 201 {
+			switch {
+			case c.Status == 201:
 				refOK = true
-			} else {
+			case outage(c.Status):
+				unavailable = "refresh"
+			default:
 				negative = "refresh"
 			}
 		}
 		for _, c := range pCalls {
 			callNames = append(callNames, fmt.Sprintf("profile:%d", c.Status))
-			if c.Status == 200 && inGroup {
+			switch {
+			case c.Status == 200 && inGroup:
 				profOK = true
-			} else {
+			case outage(c.Status):
+				unavailable = "profile"
+			default:
 				negative = "profile"
 			}
 		}
@@ -327,7 +345,12 @@ func runHistory(rep *vh.Report, ps *sut.ProxyStack, stream string, idx int, r *r
 			if negative != "" {
 				rep.Violate(stream, idx, "served-despite-denial at="+negative+" site="+site, "the authenticator refused during this step yet the request was served", h)
 			}
-			if due {
+			if due && unavailable != "" && negative == "" {
+				// the authenticator was consulted and is unavailable: whether the session may keep working is
+				// the grace rule (C05); what matters here is that it WAS consulted, and that the next check
+				// is due one validity period later at the latest
+				rep.Count("steps_served_during_outage_after_consulting", 1)
+			} else if due {
 				confirmed := (refOK || valOK) && (!groupGated || profOK)
 				if !confirmed {
 					what := "no confirming exchange"
@@ -342,7 +365,13 @@ func runHistory(rep *vh.Report, ps *sut.ProxyStack, stream string, idx int, r *r
 				rep.Count("steps_served_no_check_due", 1)
 			}
 			// model update from what was observed
-			if refOK {
+			if unavailable != "" && negative == "" {
+				lastCheck = tv
+				if len(rCalls) > 0 {
+					// grace on the refresh path: the token is treated as good for one more validity period
+					tokenExpiry = tv + V
+				}
+			} else if refOK {
 				token = newTok
 				tokenExpiry = tv + time.Duration(expires)*time.Second
 				lastCheck = tv
